@@ -11,7 +11,7 @@
     by all co-resident wavefronts.  Histories [h] are arbitrary finite lists of
     accesses (wavefront, API function, register, RegCount, lane). *)
 From Coq Require Import NArith List Bool.
-From VIsa Require Import RegSpec RegModel RegProofs RegProofs2.
+From VIsa Require Import RegSpec RegModel RegProofs RegProofs2 RegProofs3.
 Import ListNotations.
 Open Scope N_scope.
 
@@ -186,6 +186,42 @@ Theorem timing_read_is_view : forall st w i cnt lane,
 Proof. intros. split; [apply timing_read_is_view_s | apply timing_read_is_view_v]. Qed.
 Print Assumptions timing_read_is_view.
 
+(** ** wavefront lifetimes *)
+
+(** emulation: the wavefront object ComputeUnit.initWfs creates (NewWavefront +
+    initWfRegs) holds exactly [fresh_cells]: zero everywhere except EXEC and v0 *)
+Theorem emu_dispatch_refines_fresh_cells : forall exec0 ids, exec0 < 2 ^ 64 ->
+  emu_R (emu_dispatch exec0 ids) (fresh_cells exec0 ids).
+Proof. exact emu_dispatch_fresh. Qed.
+Print Assumptions emu_dispatch_refines_fresh_cells.
+
+(** timing: release of the previous occupant + WfDispatcherImpl.DispatchWf on a
+    new wavefront object at the same offsets gives the same [fresh_cells], and
+    every co-resident wavefront keeps its cells *)
+Theorem timing_redispatch_refines_fresh_cells : forall st nw cs w exec0 ids,
+  timing_R st nw cs -> w < nw -> 1 <= nvgpr (t_waves st w) -> exec0 < 2 ^ 64 ->
+  timing_R (timing_redispatch st w exec0 ids) nw (wupd cs w (fresh_cells exec0 ids)) /\
+  t_waves (timing_redispatch st w exec0 ids) = t_waves st.
+Proof. exact timing_redispatch_fresh. Qed.
+Print Assumptions timing_redispatch_refines_fresh_cells.
+
+(** the state a newly dispatched wavefront starts from does not depend on what
+    any earlier wavefront (any history of accesses, releases) did: M0, SCC, VCC
+    and all registers the dispatcher does not initialise read zero *)
+Theorem fresh_wavefront_state_independent_of_history :
+  (forall h1 h2 ws1 ws2 w exec0 ids,
+     emu_newgen (fst (emu_run ws1 h1)) w exec0 ids w = emu_newgen (fst (emu_run ws2 h2)) w exec0 ids w) /\
+  (forall h1 h2 st nw cs w exec0 ids r cnt lane,
+     timing_R st nw cs -> Forall (twf_r (t_waves st) nw) h1 -> Forall (twf_r (t_waves st) nw) h2 ->
+     w < nw -> 1 <= nvgpr (t_waves st w) -> exec0 < 2 ^ 64 ->
+     wf_operand (nsgpr (t_waves st w)) (nvgpr (t_waves st w)) r cnt lane = true ->
+     timing_read_reg (timing_redispatch (fst (timing_run st h1)) w exec0 ids) w r cnt lane
+     = Some (read_bytes (fresh_cells exec0 ids) r cnt lane) /\
+     timing_read_reg (timing_redispatch (fst (timing_run st h1)) w exec0 ids) w r cnt lane
+     = timing_read_reg (timing_redispatch (fst (timing_run st h2)) w exec0 ids) w r cnt lane).
+Proof. split; [exact emu_fresh_independent | exact timing_fresh_independent]. Qed.
+Print Assumptions fresh_wavefront_state_independent_of_history.
+
 (** ** outside the operand set: exactly which accesses panic, for every state,
     every register designator, RegCount, lane and data length *)
 
@@ -352,3 +388,15 @@ Example demo_panics :
   timing_panics demo_st (mkAcc 0 (AWriteU 1) (RV 0) 3 0) = true /\
   timing_panics demo_st (mkAcc 1 AReset RScc 0 0) = false.
 Proof. vm_compute. repeat split; reflexivity. Qed.
+
+(** a wavefront dispatched after junk was left behind: m0, vcc, s, v read zero, v0 the work-item id *)
+Example demo_redispatch :
+  let st := fst (timing_run demo_st [mkAcc 1 (AWriteU 42) RM0 0 0; mkAcc 1 (AWrite [9;9;9;9]) (RV 7) 0 63;
+                                     mkAcc 1 (AWriteU 77) RVccLo 2 0; mkAcc 1 (AWrite [5;6;7;8]) (RS 3) 0 0]) in
+  let st' := timing_redispatch st 1 18446744073709551615 (fun l => 64 + l) in
+  snd (timing_run st' [mkAcc 1 AReadU RM0 0 0; mkAcc 1 (ARead 4) (RV 7) 0 63; mkAcc 1 AReadU RVccLo 2 0;
+                       mkAcc 1 (ARead 4) (RS 3) 0 0; mkAcc 1 AReadU (RV 0) 0 5; mkAcc 1 AReadU RExecLo 2 0;
+                       mkAcc 0 (ARead 4) (RV 3) 1 63])
+  = [OVal 0; OBytes [0;0;0;0]; OVal 0; OBytes [0;0;0;0]; OVal 69; OVal 18446744073709551615; OBytes [9;9;9;9]]
+  /\ e_m0 (emu_dispatch 18446744073709551615 (fun l => 64 + l)) = 0.
+Proof. vm_compute. split; reflexivity. Qed.
